@@ -1,10 +1,10 @@
 import A2Verif.Lemmas.FsProdosRenOp
-import A2Verif.Lemmas.FsProdosDelOp
-import A2Verif.Lemmas.FsProdosPutM
+import A2Verif.Lemmas.FsProdosDelDir
+import A2Verif.Lemmas.FsProdosMkC
 /-!
 # Histories of operations on the volume directory refine the abstract specification
 
-`VOp`: `put`, `delete`, `rename`, `lock`, `unlock`, `retype` with the arguments of the API; `VOp.exec` runs one on a disk object and
+`VOp`: `put`, `mkdir`, `delete`, `rename`, `lock`, `unlock`, `retype` with the arguments of the API; `VOp.exec` runs one on a disk object and
 takes the image (`get_img()`); `VOp.Root vol` says the path addresses the volume directory of the volume named `vol`
 (normal form `[vol, name]`).  `step_refines`: from an `SInv` state the result is an `SInv` state, the step is allowed by the
 abstract specification, the volume keeps its name.  `history_refines`: every history is a valid trace.
@@ -24,6 +24,8 @@ inductive VOp where
   | retype (path : Bytes) (newType aux : Option Nat)
   /-- `put(fimg)`; `time` is the packed time of the call -/
   | put (f : FImg) (time : Bytes)
+  /-- `create(path)`: make a directory -/
+  | mkdir (path : Bytes) (time : Bytes)
 
 def isOkR {α : Type} (r : R α) : Bool := match r with | .ok _ => true | .error _ => false
 
@@ -37,14 +39,14 @@ def nameOf (vol path : Bytes) : Bytes :=
 def RootPath (vol path : Bytes) : Prop := ∃ nm, normalizePath vol path = .ok [vol, nm] ∧ nm ≠ [] ∧ NotVol vol path
 
 def VOp.path : VOp → Bytes
-  | .delete p | .rename p _ | .lock p | .unlock p | .retype p _ _ => p
+  | .delete p | .rename p _ | .lock p | .unlock p | .retype p _ _ | .mkdir p _ => p
   | .put f _ => f.fullPath
 
 /-- the operation addresses the volume directory of the volume named `vol` (a type code is a byte; the arguments of `put`
-satisfy `PutArgs`) -/
+satisfy `PutArgs`, the packed time is four bytes) -/
 def VOp.Root (vol : Bytes) (op : VOp) : Prop :=
   RootPath vol op.path ∧ (∀ p t a, op = .retype p (some t) a → t < 256) ∧
-  (∀ f t, op = .put f t → PutArgs f t)
+  (∀ f t, op = .put f t → PutArgs f t) ∧ (∀ p t, op = .mkdir p t → t.length = 4 ∧ ∀ x ∈ t, x < 256)
 
 /-- one operation followed by `get_img()` (source as repaired): did it report success, the disk object afterwards -/
 def VOp.exec (op : VOp) (d : Disk) : Bool × Disk :=
@@ -55,6 +57,7 @@ def VOp.exec (op : VOp) (d : Disk) : Bool × Disk :=
   | .unlock p => (isOkR (Fs.Prodos.unlock p d).1, (Fs.Prodos.unlock p d).2.flush.2)
   | .retype p t a => (isOkR (Fs.Prodos.retype p t a d).1, (Fs.Prodos.retype p t a d).2.flush.2)
   | .put f t => (isOkR (Fs.Prodos.put f t repaired d).1, (Fs.Prodos.put f t repaired d).2.flush.2)
+  | .mkdir p t => (isOkR (Fs.Prodos.mkdir p t d).1, (Fs.Prodos.mkdir p t d).2.flush.2)
 
 /-- the operation of the abstract specification -/
 def VOp.abs (vol : Bytes) : VOp → FsOp
@@ -64,6 +67,7 @@ def VOp.abs (vol : Bytes) : VOp → FsOp
   | .unlock p => .unlock (nameOf vol p)
   | .retype p _ _ => .retype (nameOf vol p)
   | .put f _ => .put (nameOf vol f.fullPath) f.chunks f.eof (f.fsType.getD 0 0) (f.aux.getD 0 0 + 256 * f.aux.getD 1 0)
+  | .mkdir p _ => .mkdir (nameOf vol p)
 
 theorem nameOf_root {vol path nm : Bytes} (h : normalizePath vol path = .ok [vol, nm]) : nameOf vol path = upper nm := by
   unfold nameOf; rw [h]; rfl
@@ -95,14 +99,72 @@ theorem exec_of_refines {d : Disk} {α : Type} {run : R α × Disk} {op : FsOp} 
   · rw [volOf_eq hr, volOf_eq hr4]; exact hstep
   · rw [volName_label hs4.inv hr4, volName_label hs.inv hr, hlab]
 
+theorem isChain_unique {r : Raw} : ∀ {b : Nat} {c1 c2 : List Nat}, IsChain r b c1 → IsChain r b c2 → c1 = c2
+  | _, _, _, IsChain.nil, h2 => (isChain_zero h2).symm
+  | _, _, c2, @IsChain.cons _ b blk rest hb0 hblk hrest, h2 => by
+    cases h2 with
+    | nil => exact absurd rfl hb0
+    | @cons _ blk2 rest2 _ hblk2 hrest2 =>
+      have : blk2 = blk := by rw [hblk] at hblk2; injection hblk2 with e; exact e.symm
+      subst this
+      rw [isChain_unique hrest hrest2]
+
+theorem find_path_nodup {l : List FileRec} (nd : (l.map (·.path)).Nodup) {f : FileRec} (hf : f ∈ l) :
+    l.find? (·.path == f.path) = some f := by
+  induction l with
+  | nil => cases hf
+  | cons a l ih =>
+    rw [List.map_cons, List.nodup_cons] at nd
+    rw [List.find?_cons]
+    rcases List.mem_cons.mp hf with rfl | hf'
+    · simp
+    · have : (a.path == f.path) = false := by
+        have : a.path ≠ f.path := fun e => nd.1 (by rw [e]; exact List.mem_map_of_mem hf')
+        simpa using this
+      rw [this]
+      exact ih nd.2 hf'
+
+/-- a name the search finds as a sub-directory entry is the path of a directory record of the reading -/
+theorem dir_hit_lookup {d : Disk} (hs : SInv d) (nm : Bytes) (hv : isNameValid nm = true) (ch : List Nat) (hic : IsChain d.raw 2 ch)
+    (x : Bytes × Nat × Nat) (hx : (dirSlots d.raw 2 ch).find? (isHit [stSubDirEntry] nm) = some x) :
+    ∃ f, (volOf d.raw).lookup (upper nm) = some f ∧ f.isDir = true := by
+  obtain ⟨v, fsL, ch', hr, ht, c, hts, heff, hbsz, hbok⟩ := hs.ctx
+  obtain ⟨hw, hn, hroot, hvv, hc, hic', hnd, hchf, h2, h6, h3, hbt, hstv⟩ := root_chain_facts hs.inv v fsL ch' hr ht
+  have hce : ch = ch' := isChain_unique hic hic'
+  subst hce
+  obtain ⟨hxm, hxhit⟩ := mem_find hx
+  have hmatch : isFileMatch [stSubDirEntry] nm x.1 = true := by
+    unfold isHit at hxhit; simp only [Bool.and_eq_true] at hxhit; exact hxhit.2
+  obtain ⟨hst, hname⟩ := isFileMatch_dir nm _ hv hmatch
+  have hact : isAct x = true := by unfold isAct; simp only [ne_eq, decide_eq_true_eq]; omega
+  obtain ⟨hsplit, hs1, hs2, hfs2, hfiles, hdisj, hxnd, hxown, hall, hcnt0⟩ := slot_split_facts hs.inv v fsL ch hr ht x hxm
+  obtain ⟨z, hz⟩ := hall x hxm hact
+  obtain ⟨fs, sch, _, hzeq, _, _⟩ := RE_dir 69 d.raw (hdrTotal d.raw) [] 0 x z hst hz
+  have hgx : slotRecs 69 d.raw (hdrTotal d.raw) [] 0 x = z := by unfold slotRecs; rw [if_pos hact, hz]; rfl
+  have hmem : dirRec x.1 [] sch ∈ v.files := by
+    simp only at hfiles
+    rw [hfiles, hgx, hzeq]
+    apply List.mem_append_left
+    apply List.mem_append_right
+    simp
+  have hpath : (dirRec x.1 [] sch).path = upper nm := by
+    show (baseRec x.1 []).path = _
+    rw [baseRec_path_root, hname]
+  refine ⟨dirRec x.1 [] sch, ?_, rfl⟩
+  rw [volOf_eq hr]
+  unfold Vol.lookup
+  rw [← hpath]
+  exact find_path_nodup (wfB_paths_nodup hw) hmem
+
 /-- **Refinement, one step**: from a state between two calls (`SInv`), an operation that addresses the volume directory ends —
 after `get_img()` — in such a state again; the readings before and after are related by the step the abstract specification
 allows for the operation with the reported result; the volume keeps its name -/
-theorem step_refines {d : Disk} (hs : SInv d) (op : VOp) (hroot : op.Root (volName (hdrOf d.raw))) :
+theorem step_refines {d : Disk} (hs : SInv d) (op : VOp) (hroot : op.Root (volName (hdrOf d.raw)))
+    (hren : ∀ p n, op = .rename p n → ∀ f, (volOf d.raw).lookup (nameOf (volName (hdrOf d.raw)) p) = some f → f.isDir = false) :
     SInv (op.exec d).2 ∧
     stepOk pdParams (volOf d.raw) (op.abs (volName (hdrOf d.raw))) (op.exec d).1 (volOf (op.exec d).2.raw) = true ∧
     volName (hdrOf (op.exec d).2.raw) = volName (hdrOf d.raw) := by
-  obtain ⟨⟨nm, hnodes, hnm, hnv⟩, htb, hput⟩ := hroot
+  obtain ⟨⟨nm, hnodes, hnm, hnv⟩, htb, hput, hmk⟩ := hroot
   cases op with
   | delete p =>
     simp only [VOp.path] at hnodes hnv
@@ -116,7 +178,16 @@ theorem step_refines {d : Disk} (hs : SInv d) (op : VOp) (hroot : op.Root (volNa
     exact this
   | rename p n =>
     simp only [VOp.path] at hnodes hnv
-    have := exec_of_refines hs (rename_refines' hs p nm n hnodes hnm hnv)
+    have hnodir : ∀ ch, IsChain d.raw 2 ch → isNameValid nm = true →
+        (dirSlots d.raw 2 ch).find? (isHit [stSubDirEntry] nm) = none := by
+      intro ch hic hv
+      cases hx : (dirSlots d.raw 2 ch).find? (isHit [stSubDirEntry] nm) with
+      | none => rfl
+      | some x =>
+        obtain ⟨f, hf, hd⟩ := dir_hit_lookup hs nm hv ch hic x hx
+        have := hren p n rfl f (by rw [nameOf_root hnodes]; exact hf)
+        rw [hd] at this; cases this
+    have := exec_of_refines hs (rename_refines' hs p nm n hnodes hnm hnv hnodir)
     simp only [VOp.exec, VOp.abs, nameOf_root hnodes]
     exact this
   | lock p =>
@@ -140,6 +211,11 @@ theorem step_refines {d : Disk} (hs : SInv d) (op : VOp) (hroot : op.Root (volNa
     have := exec_of_refines hs (put_refines' hs f t nm pa hnodes hnm)
     simp only [VOp.exec, VOp.abs, nameOf_root hnodes]
     exact this
+  | mkdir p t =>
+    simp only [VOp.path] at hnodes hnv
+    have := exec_of_refines hs (mkdir_refines' hs p t nm (hmk p t rfl) hnodes hnm)
+    simp only [VOp.exec, VOp.abs, nameOf_root hnodes]
+    exact this
 
 /-! ## histories -/
 
@@ -153,22 +229,38 @@ def finalDisk : Disk → List VOp → Disk
   | d, [] => d
   | d, op :: ops => finalDisk (op.exec d).2 ops
 
+/-- every `rename` of the history is applied to a file: at the time it is executed, its source is not listed as a directory
+(renaming a directory renames the paths of the files in it, which the abstract `rename` does not describe) -/
+def RenFiles (vol : Bytes) : Disk → List VOp → Prop
+  | _, [] => True
+  | d, op :: ops =>
+    (∀ p n, op = .rename p n → ∀ f, (volOf d.raw).lookup (nameOf vol p) = some f → f.isDir = false) ∧
+    RenFiles vol (op.exec d).2 ops
+
 /-- **Refinement, histories**: every history of operations on the volume directory, started from a state between two calls
-(`SInv`), is a valid trace of the abstract specification; the state at the end is such a state again, the final reading is
-the reading of the final image -/
+(`SInv`), in which `rename` is applied to files only, is a valid trace of the abstract specification; the state at the end is
+such a state again, the final reading is the reading of the final image -/
 theorem history_refines : ∀ (ops : List VOp) (d : Disk), SInv d → (∀ op ∈ ops, op.Root (volName (hdrOf d.raw))) →
+    RenFiles (volName (hdrOf d.raw)) d ops →
     validFrom pdParams (volOf d.raw) (trace (volName (hdrOf d.raw)) d ops) ∧ SInv (finalDisk d ops) ∧
     finalVol (volOf d.raw) (trace (volName (hdrOf d.raw)) d ops) = volOf (finalDisk d ops).raw
-  | [], d, hs, _ => ⟨trivial, hs, rfl⟩
-  | op :: ops, d, hs, hroot => by
-    obtain ⟨h1, h2, h3⟩ := step_refines hs op (hroot op List.mem_cons_self)
+  | [], d, hs, _, _ => ⟨trivial, hs, rfl⟩
+  | op :: ops, d, hs, hroot, hren => by
+    obtain ⟨h1, h2, h3⟩ := step_refines hs op (hroot op List.mem_cons_self) hren.1
     have ih := history_refines ops (op.exec d).2 h1 (fun o ho => by rw [h3]; exact hroot o (List.mem_cons_of_mem _ ho))
+      (by rw [h3]; exact hren.2)
     rw [h3] at ih
     obtain ⟨a, b, c⟩ := ih
     refine ⟨⟨h2, a⟩, b, ?_⟩
     show finalVol (volOf d.raw) (⟨_, _, _⟩ :: trace _ _ ops) = _
     rw [finalVol_cons]
     exact c
+
+/-- a history without `rename` meets `RenFiles` -/
+theorem renFiles_of_no_rename (vol : Bytes) : ∀ (ops : List VOp) (d : Disk), (∀ op ∈ ops, ∀ p n, op ≠ .rename p n) → RenFiles vol d ops
+  | [], _, _ => trivial
+  | op :: ops, d, h => ⟨fun p n e => absurd e (h op List.mem_cons_self p n),
+      renFiles_of_no_rename vol ops _ (fun o ho => h o (List.mem_cons_of_mem _ ho))⟩
 
 theorem mem_trace {vol : Bytes} : ∀ {ops : List VOp} {d : Disk} {s : Step}, s ∈ trace vol d ops → ∃ op ∈ ops, s.op = op.abs vol
   | [], _, s, hs => by cases hs
